@@ -20,7 +20,7 @@ import (
 
 func init() {
 	vc.Register(&vc.Check{ID: "C09", Level: "exploration", Run: run, Replay: replay, QuickSec: 110, ThoroSec: 1150,
-		Rule:   "documents issued by the independent issuer refpki over the profile matrix CSCA key {RSA-2048 PKCS1, RSA-3072 PSS, ECDSA on 11 curves} x DS key {RSA-2048/3072/4096 PKCS1, RSA-2048 PSS, ECDSA on 11 curves x {named, explicit parameters}} x digest {SHA-1..512} x SID {issuerAndSerial, SKI}, each with the one-factor variants (encoding, LDS SO version, signing time, name invariances, extra certificate, anchors with equal SKI, CardSecurity, master-list pool, ...). quick = one-factor-at-a-time around 4 baselines + all CSCA x DS-key x digest triples in the base form; thorough = full product x every variant. Each document is assembled with the library's own file constructors and passed to passiveauth.PassiveAuth; required outcome: Success. distinct_nontrivial = distinct (profile, variant) documents accepted",
+		Rule:   "documents issued by the independent issuer refpki over the profile matrix CSCA key {RSA-2048 PKCS1, RSA-3072 PSS, ECDSA on 11 curves} x DS key {RSA-2048/3072/4096 PKCS1, RSA-2048 PSS, ECDSA on 11 curves x {named, explicit parameters}} x digest {SHA-1..512} x SID {issuerAndSerial, SKI}, each with the one-factor variants (encoding, LDS SO version, signing time at the inclusive ends of the DS and of the CSCA validity, name invariances, extra certificates before/after the signer, anchors with equal SKI, CardSecurity, master-list pool, hash-list order, ...) and all pairs of variants that touch different parts. quick = one-factor-at-a-time and pairwise around 4 baselines + all CSCA x DS-key x digest triples in the base form; thorough = full product x every variant + pairs under a covering set of profiles. Each document is assembled with the library's own file constructors and passed to passiveauth.PassiveAuth; required outcome: Success. distinct_nontrivial = distinct (profile, variant) documents accepted",
 		Assume: []string{"refpki (independent of gmrtd) issues correct DER: cross-checked at start against crypto/x509, crypto/rsa, crypto/ecdsa (self-test)", "Go standard library crypto"}})
 }
 
@@ -66,25 +66,66 @@ func init() {
 
 // variants: one factor changed with respect to the base document
 // (base = DER, LDS SO v0, signingTime inside both windows as UTCTime, digest AlgorithmIdentifier without NULL).
+// A case's Variant is "" (base), one of these, or several joined with "+" (factors from disjoint groups).
 var variants = []string{
 	"",
 	"enc-indef-outer", "enc-indef-all", "enc-indef-deep",
 	"lds-v1",
 	"st-absent", "st-notbefore-utc", "st-notafter-utc", "st-inside-gen", "st-notbefore-gen", "st-notafter-gen",
-	"sid-rdn-order", "sid-string-type",
-	"extra-cert", "extra-cert-csca",
+	"csca-notafter-eq-st", "csca-notbefore-eq-st",
+	"sid-rdn-order", "sid-string-type", "sid-rdn-order-string-type",
+	"extra-cert", "extra-cert-csca", "extra-cert-before-ds", "extra-cert-same-issuer-other-serial",
 	"anchors-same-ski-wrong-key-first", "anchors-link-cert-first",
 	"cardsec", "ml-pool",
 	"digest-null-params", "si-rsaencryption-oid",
 	"pss-salt-20", "pss-salt-20-der-omitted", "pss-der-defaults-omitted",
 	"csca-explicit-params",
+	"hash-order-desc", "hash-order-dg15-first",
 }
 
-// applicable says whether the variant changes anything for the case (inapplicable variants are skipped in
-// the enumeration and behave as base when reached through minimisation).
-func applicable(k kase) bool {
-	switch k.Variant {
-	case "sid-rdn-order", "sid-string-type":
+// groups: two variants combine only when their groups are disjoint (they then touch different parts).
+var groups = map[string][]string{
+	"enc-indef-outer": {"enc"}, "enc-indef-all": {"enc"}, "enc-indef-deep": {"enc"},
+	"lds-v1":    {"lds"},
+	"st-absent": {"st"}, "st-notbefore-utc": {"st"}, "st-notafter-utc": {"st"}, "st-inside-gen": {"st"}, "st-notbefore-gen": {"st"}, "st-notafter-gen": {"st"},
+	"csca-notafter-eq-st": {"st", "anchors"}, "csca-notbefore-eq-st": {"st", "anchors"},
+	"sid-rdn-order": {"sid"}, "sid-string-type": {"sid"}, "sid-rdn-order-string-type": {"sid"},
+	"extra-cert": {"extra"}, "extra-cert-csca": {"extra"}, "extra-cert-before-ds": {"extra"}, "extra-cert-same-issuer-other-serial": {"extra"},
+	"anchors-same-ski-wrong-key-first": {"anchors"}, "anchors-link-cert-first": {"anchors"},
+	"cardsec": {"container"}, "ml-pool": {"container", "anchors"},
+	"digest-null-params": {"digest"}, "si-rsaencryption-oid": {"sigalg"},
+	"pss-salt-20": {"pss"}, "pss-salt-20-der-omitted": {"pss"}, "pss-der-defaults-omitted": {"pss"},
+	"csca-explicit-params": {"cscaparams"},
+	"hash-order-desc":      {"hashorder"}, "hash-order-dg15-first": {"hashorder"},
+}
+
+// pairs returns every unordered pair of variants with disjoint groups, as "a+b".
+func pairs() []string {
+	var out []string
+	for i, a := range variants {
+		for _, b := range variants[i+1:] {
+			if a == "" || b == "" {
+				continue
+			}
+			ok := true
+			for _, ga := range groups[a] {
+				for _, gb := range groups[b] {
+					if ga == gb {
+						ok = false
+					}
+				}
+			}
+			if ok {
+				out = append(out, a+"+"+b)
+			}
+		}
+	}
+	return out
+}
+
+func applicable1(k kase, v string) bool {
+	switch v {
+	case "sid-rdn-order", "sid-string-type", "sid-rdn-order-string-type":
 		return k.SID == "ias"
 	case "si-rsaencryption-oid":
 		return strings.HasPrefix(k.DS, "rsa") && !strings.HasSuffix(k.DS, "pss")
@@ -94,6 +135,18 @@ func applicable(k kase) bool {
 		return (k.CSCA == "rsa3072-pss" || k.DS == "rsa2048-pss") && k.Hash == "sha1"
 	case "csca-explicit-params":
 		return strings.HasPrefix(k.CSCA, "ec-")
+	}
+	_, known := groups[v]
+	return known || v == ""
+}
+
+// applicable says whether every factor of the variant changes something for the case (inapplicable variants
+// are skipped in the enumeration and behave as base when reached through minimisation).
+func applicable(k kase) bool {
+	for _, v := range strings.Split(k.Variant, "+") {
+		if !applicable1(k, v) {
+			return false
+		}
 	}
 	return true
 }
@@ -131,20 +184,22 @@ func build(k kase) (*built, error) {
 	if !ok {
 		return nil, fmt.Errorf("unknown ds %q", k.DS)
 	}
-	v := k.Variant
-	if !applicable(k) {
-		v = ""
+	var parts []string
+	if applicable(k) {
+		parts = strings.Split(k.Variant, "+")
 	}
 	p := refpki.Profile{Country: "NL", State: "NLD", CSCA: cs, DS: ds, Hash: refpki.Hash(k.Hash)}
-	switch v {
-	case "pss-salt-20":
-		p.PSSSaltLen = 20
-	case "pss-der-defaults-omitted":
-		p.PSSOmitDefaults = true
-	case "pss-salt-20-der-omitted":
-		p.PSSSaltLen, p.PSSOmitDefaults = 20, true
-	case "csca-explicit-params":
-		p.CSCA.Explicit = true
+	for _, v := range parts {
+		switch v {
+		case "pss-salt-20":
+			p.PSSSaltLen = 20
+		case "pss-der-defaults-omitted":
+			p.PSSOmitDefaults = true
+		case "pss-salt-20-der-omitted":
+			p.PSSSaltLen, p.PSSOmitDefaults = 20, true
+		case "csca-explicit-params":
+			p.CSCA.Explicit = true
+		}
 	}
 	is := refpki.NewIssuer(p)
 	o := refpki.SODOpts{}
@@ -152,6 +207,25 @@ func build(k kase) (*built, error) {
 		o.SIDForm = refpki.SIDSubjectKeyID
 	}
 	b := &built{dgs: dgFiles(), store: [][]byte{is.CSCACert.DER}, wantDS: is.DSCert.DER, wantCA: is.CSCACert.DER}
+	for _, v := range parts {
+		applyVariant(v, is, cs, &o, b)
+	}
+	b.sod, _ = is.IssueSOD(b.dgs, o)
+	return b, nil
+}
+
+// cscaWithWindow re-issues the self-signed CSCA certificate (same key, names, identifiers) with another validity.
+func cscaWithWindow(is *refpki.Issuer, nb, na time.Time) *refpki.Cert {
+	return refpki.IssueCert(refpki.CertSpec{
+		Serial: big.NewInt(1), Issuer: is.CSCAName, Subject: is.CSCAName,
+		NotBefore: nb, NotAfter: na, Key: is.CSCAKey,
+		AKI: is.CSCAKey.KeyID(), BasicConstraints: refpki.BCCA, PathLen: 0, KeyUsage: refpki.KUKeyCertSign | refpki.KUCRLSign,
+	}, is.CSCAKey, is.CertSignOpts())
+}
+
+func applyVariant(v string, is *refpki.Issuer, cs refpki.KeySpec, op *refpki.SODOpts, b *built) {
+	o := *op
+	defer func() { *op = o }()
 	switch v {
 	case "enc-indef-outer":
 		o.Encoding = refpki.EncIndefOuter
@@ -177,6 +251,31 @@ func build(k kase) (*built, error) {
 		o.SIDIssuer = is.CSCAName.Reversed()
 	case "sid-string-type":
 		o.SIDIssuer = is.CSCAName.WithStringTag(0x13) // certificate uses UTF8String
+	case "sid-rdn-order-string-type":
+		o.SIDIssuer = is.CSCAName.Reversed().WithStringTag(0x13)
+	case "csca-notafter-eq-st":
+		// the trust anchor's validity ends exactly at the signing time (X.509 validity is inclusive), inside the DS window
+		c := cscaWithWindow(is, refpki.CSCANotBefore, refpki.SigningTime)
+		b.store, b.wantCA = [][]byte{c.DER}, c.DER
+	case "csca-notbefore-eq-st":
+		c := cscaWithWindow(is, refpki.SigningTime, refpki.CSCANotAfter)
+		b.store, b.wantCA = [][]byte{c.DER}, c.DER
+	case "hash-order-desc":
+		o.HashOrder = []int{15, 14, 13, 11, 1}
+	case "hash-order-dg15-first":
+		o.HashOrder = []int{15}
+	case "extra-cert-before-ds":
+		other := refpki.LoadKey(refpki.EC("P-256", false, 7))
+		o.ExtraCerts = []*refpki.Cert{is.IssueDS(refpki.CertSpec{Serial: big.NewInt(0x1002), Subject: refpki.NewName("NL", "Reference State", "Document Signer", "DS 02"), Key: other})}
+		o.ExtraCertsFirst = true
+	case "extra-cert-same-issuer-other-serial":
+		// two embedded certificates of the same issuer, the unrelated one first and with a numerically close serial
+		other := refpki.LoadKey(refpki.EC("P-256", false, 7))
+		o.ExtraCerts = []*refpki.Cert{
+			is.IssueDS(refpki.CertSpec{Serial: big.NewInt(0x1000), Subject: refpki.NewName("NL", "Reference State", "Document Signer", "DS 00"), Key: other}),
+			is.CSCACert,
+		}
+		o.ExtraCertsFirst = true
 	case "extra-cert":
 		other := refpki.LoadKey(refpki.EC("P-256", false, 7))
 		o.ExtraCerts = []*refpki.Cert{is.IssueDS(refpki.CertSpec{Serial: big.NewInt(0x1002), Subject: refpki.NewName("NL", "Reference State", "Document Signer", "DS 02"), Key: other})}
@@ -211,8 +310,6 @@ func build(k kase) (*built, error) {
 		un := refpki.NewIssuer(refpki.Profile{Country: "SE", State: "SWE", CSCA: refpki.EC("P-256", false, 30), DS: refpki.EC("P-256", false, 31), Hash: refpki.SHA256})
 		b.mlPool, _ = is.IssueMasterList([]*refpki.Cert{is.CSCACert, un.CSCACert})
 	}
-	b.sod, _ = is.IssueSOD(b.dgs, o)
-	return b, nil
 }
 
 type verdict struct {
@@ -358,6 +455,15 @@ func minimise(k kase, v verdict) (string, kase) {
 	t := cur
 	t.Variant = ""
 	try(t)
+	if strings.Contains(cur.Variant, "+") { // a pair: is one of its factors enough?
+		for _, part := range strings.Split(cur.Variant, "+") {
+			t = cur
+			t.Variant = part
+			if try(t) {
+				break
+			}
+		}
+	}
 	t = cur
 	t.SID = baseline.SID
 	try(t)
@@ -431,6 +537,11 @@ func enumerate(thorough bool) []kase {
 						for _, v := range variants {
 							add(kase{c, d, h, s, v})
 						}
+						if thoroughPairProfile(c, d, h) {
+							for _, v := range pairs() {
+								add(kase{c, d, h, s, v})
+							}
+						}
 					}
 				}
 			}
@@ -469,6 +580,11 @@ func enumerate(thorough bool) []kase {
 				k2.Variant = v
 				add(k2)
 			}
+			for _, v := range pairs() { // every pair of variants that touch different parts
+				k2 := k
+				k2.Variant = v
+				add(k2)
+			}
 		}
 		// PSS parameter variants need SHA-1 / non-SHA-1
 		for _, h := range []string{"sha1", "sha512"} {
@@ -490,6 +606,16 @@ func enumerate(thorough bool) []kase {
 	return out
 }
 
+// thoroughPairProfile selects the profiles under which the thorough tier adds all variant pairs: every CSCA
+// and every DS key type at the default digest plus every digest at two profiles (the full product with pairs
+// would be 13*26*5*2*~400 documents).
+func thoroughPairProfile(c, d, h string) bool {
+	if h == "sha256" {
+		return c == "rsa2048-pkcs1" || c == "rsa3072-pss" || c == "ec-brainpoolP256r1" || d == "rsa2048-pkcs1" || d == "ec-P-256-named"
+	}
+	return (c == "rsa3072-pss" && d == "rsa2048-pss") || (c == "ec-P-384" && d == "ec-brainpoolP384r1-explicit")
+}
+
 func run(c *vc.Ctx) {
 	if err := refpki.EnsureKeys(); err != nil {
 		c.HarnessError("refpki.EnsureKeys: %v", err)
@@ -502,9 +628,9 @@ func run(c *vc.Ctx) {
 	cases := enumerate(c.Thorough())
 	sec := "profile-matrix"
 	if c.Thorough() {
-		c.SecBound(sec, fmt.Sprintf("full product 13 CSCA keys x 26 DS keys x 5 digests x 2 SID forms x %d variants (inapplicable variants skipped): %d documents", len(variants), len(cases)))
+		c.SecBound(sec, fmt.Sprintf("full product 13 CSCA keys x 26 DS keys x 5 digests x 2 SID forms x %d variants (inapplicable variants skipped) + all %d variant pairs under a covering set of profiles (every CSCA key and every DS key at SHA-256, every digest at two profiles): %d documents", len(variants), len(pairs()), len(cases)))
 	} else {
-		c.SecBound(sec, fmt.Sprintf("one-factor-at-a-time around 4 baselines (CSCA, DS, digest, SID, %d variants under both SID forms, PSS parameter variants) + all 13 CSCA keys x 26 DS keys x 5 digests in the base form: %d documents", len(variants), len(cases)))
+		c.SecBound(sec, fmt.Sprintf("one-factor-at-a-time around 4 baselines (CSCA, DS, digest, SID, %d variants and all %d pairs of variants touching different parts under both SID forms, PSS parameter variants) + all 13 CSCA keys x 26 DS keys x 5 digests in the base form: %d documents", len(variants), len(pairs()), len(cases)))
 	}
 	chainOdd := 0
 	slowest, slowestCase := time.Duration(0), ""
